@@ -218,14 +218,18 @@ def condAll (m : Pomdp) (prev : VList) (c : Cond) (rt : Bool) (b : Nat → Rat) 
   let firstBest := vals.findIdx (· == best)
   (vals.zipIdx).foldl (fun c (v, a) => if a == firstBest then c else c.note rt best v) c
 
-/-- every `dominates(l, r)` test `extractDominated` could make on `l` -/
+/-- every `dominates(l, r)` test `extractDominated` could make on `l`: `D1 ∨ D2` with `D1 = ∀s, l−r ≥ −1e-6` and
+    `D2 = ∀s, l−r ≥ −min(l,r)·1e-11`.  The deciding quantity of `D1` is `min_s(l−r) + 1e-6`; `D2` only matters when `D1`
+    is false, and then it is decided by the same most negative component. -/
 def condDominates (S : Nat) (c : Cond) (rt : Bool) (l : VList) : Cond :=
   (l.zipIdx).foldl (fun c (x, i) => (l.zipIdx).foldl (fun c (y, j) =>
     if i == j then c else
     let d1 := (List.range S).foldl (fun acc s => minQ acc (val x s - val y s)) (val x 0 - val y 0)
+    let c := c.note rt (d1 + Gen.equalToleranceSmall) 0
+    if decide (0 ≤ d1 + Gen.equalToleranceSmall) then c else
     let d2 := (List.range S).foldl (fun acc s => minQ acc (val x s - val y s + minQ (val x s) (val y s) * Gen.equalToleranceGeneral))
                 (val x 0 - val y 0 + minQ (val x 0) (val y 0) * Gen.equalToleranceGeneral)
-    (c.note rt (d1 + Gen.equalToleranceSmall) 0).note rt d2 0) c) c
+    c.note rt d2 0) c) c
 
 /-- decisions of one PERSEUS sweep (mirrors `perseusLoop`), then of the final `extractDominated` -/
 def condPerseusStep (m : Pomdp) (rtOf : List Rat → Bool) (prev : VList) (beliefs : List (List Rat)) (c : Cond) : Cond :=
@@ -357,7 +361,8 @@ def ls : P String := do
   let cond := condLsLoop m prev rtOf verts2 fuel (verts1 []) st0 c0
   if !vd.fails.isEmpty then return vd.render
   if sameVList mlevel level then return ({ vd with tag := if walked then "ls" else "ls unwalked" }).render
-  if !walked || tie then return "skip replay_diverged ls"
+  if tie then return "skip agenda_tie ls"
+  if !walked then return (vd.diffIf true s!"LinearSupport replay_diverged the library's level is not what its own loop, walked with its own kernels, produces (sizes walked-model={mlevel.length} impl={level.length})").render
   if illConditioned cond then return s!"skip ill_conditioned ls minMargin={qstr cond.minM} ties={cond.ties}"
   return (vd.diffIf true s!"LinearSupport model_differs sizes model={mlevel.length} impl={level.length} minMargin={qstr cond.minM}").render
 
